@@ -111,10 +111,20 @@ impl Scenario for Hg {
         vec![Out::Ok, Out::Err(0)]
     }
     fn ctl_actions(&self, w: &World, _x: &X) -> Vec<u8> {
-        w.inner.lock().unwrap().held_unreleased().into_iter().map(|i| i as u8).collect()
+        // Ctl(i): held clone i becomes ready; Ctl(100+i): it reports a readiness error instead
+        let g = w.inner.lock().unwrap();
+        let mut v: Vec<u8> = g.held_unreleased().into_iter().map(|i| i as u8).collect();
+        if g.held.iter().all(|h| !h.fail) {
+            v.extend(g.held_unreleased().into_iter().map(|i| 100 + i as u8));
+        }
+        v
     }
     fn apply_ctl(&self, w: &mut World, _x: &mut X, ctl: u8) {
-        w.release_ready(ctl as usize);
+        if ctl >= 100 {
+            w.release_ready_err(ctl as usize - 100);
+        } else {
+            w.release_ready(ctl as usize);
+        }
     }
     fn allow(&self, _w: &World, _x: &X, h: &[Action], a: &Action) -> bool {
         let c = Counts::of(h);
@@ -143,6 +153,8 @@ impl Scenario for Hg {
         };
         let g = w.inner.lock().unwrap();
         let n = g.calls.len();
+        // attempts that ended before reaching the inner service: their instance's readiness failed
+        let rf = g.held_failed();
         if n > self.max {
             out.push(Viol::new("too_many_attempts", site, format!("{n} attempts started with max_hedged_attempts={}", self.max)));
         }
@@ -168,7 +180,7 @@ impl Scenario for Hg {
         let cl = &w.callers[0];
         match &cl.phase {
             Phase::Done(Outcome::Layer(t)) if t.starts_with("AllAttemptsFailed") => {
-                if n < self.max || failed < n {
+                if n + rf < self.max || failed < n {
                     out.push(Viol::new(
                         "premature_all_failed",
                         site,
@@ -199,7 +211,7 @@ impl Scenario for Hg {
                     if first_ok.is_some() && x.pre_first_success_pending {
                         out.push(Viol::new("success_not_delivered", site, "an attempt has succeeded and its result reached the hedge, but the poll returned Pending".to_string()));
                     }
-                    if n == self.max && failed == n {
+                    if n + rf == self.max && failed == n {
                         out.push(Viol::new("pending_after_all_failed", site, "all attempts were started and failed, but the poll returned Pending".to_string()));
                     }
                 } else if let Action::Complete(_, Out::Ok) = a {
@@ -239,6 +251,12 @@ impl Scenario for Hg {
         }
         if matches!(&w.callers[0].phase, Phase::Done(Outcome::Ok(r)) if g.calls.iter().any(|k| k.k >= 1 && matches!(&k.status, CallStatus::Ok(r2) if r2 == r))) {
             v.push("hedge_won");
+        }
+        if g.held_failed() > 0 {
+            v.push("hedge_clone_reported_a_readiness_error");
+            if matches!(&w.callers[0].phase, Phase::Done(Outcome::Layer(_))) {
+                v.push("all_failed_with_a_readiness_error_among_the_attempts");
+            }
         }
         v.dedup();
         v
@@ -331,7 +349,7 @@ fn main() {
     rep.assumptions = vec![
         "prompt executor; attempt tasks are run by tokio's FIFO queue whenever the explorer yields; their relative order is controlled through the gates".into(),
     ];
-    for w in ["success_while_hedge_clone_not_ready", "hedge_started_after_delay", "attempts_started_at_one_instant", "hedge_failed_while_primary_running", "completion_at_hedge_start_instant", "all_attempts_failed", "hedge_won"] {
+    for w in ["success_while_hedge_clone_not_ready", "hedge_started_after_delay", "attempts_started_at_one_instant", "hedge_failed_while_primary_running", "completion_at_hedge_start_instant", "all_attempts_failed", "hedge_won", "hedge_clone_reported_a_readiness_error", "all_failed_with_a_readiness_error_among_the_attempts"] {
         rep.require_witness(w);
     }
     let depth = tier.pick(12, 16);
